@@ -1,7 +1,7 @@
 (* C12  The API JSON is a complete, internally consistent inventory (container, serialisation order, ids). *)
 From Coq Require Import List String Ascii ZArith Bool Permutation Sorting.Sorted. Import ListNotations.
 From SV Require Import Lib.Str Model.Types Model.Api Model.FrontSmall Proofs.FrontSmallProofs.
-From SV Require Import Model.View Model.Front Model.Json Proofs.WalkProofs Proofs.JsonProofs Proofs.ResolveProofs.
+From SV Require Import Model.View Model.Front Model.Json Proofs.WalkProofs Proofs.JsonProofs Proofs.ResolveProofs Model.Run Proofs.RunMoreProofs.
 
 (* every top-level list is sorted by id and free of duplicates, whatever the order of registration *)
 Theorem C12_lists_sorted_nodup : forall (V : Type) (ops : list (str * V)),
@@ -86,6 +86,14 @@ Theorem C12_json_ids_resolve : forall v o, front v = Ok o ->
      incl (map r_id (f_results fn)) RI /\ incl (map p_id (f_params fn)) PI) /\
   (forall e, In e (sorted_values e_id (fl_enums f)) -> incl (map fst (e_instances e)) II).
 Proof. exact json_ids_resolve. Qed.
+(* ... of every completed run of the whole tool *)
+Theorem C12_run_ids_resolve : forall v nc fs0 out, run v nc fs0 = Ok out ->
+  let K := output_keys out in
+  Forall (mod_res K) (api_modules (out_api out)) /\
+  Forall (fun kv : str * cls => cls_res K (snd kv)) (api_classes (out_api out)) /\
+  Forall (fun kv : str * func => func_res K (snd kv)) (fl_functions (out_flatd out)) /\
+  Forall (fun kv : str * enum_ => enum_res K (snd kv)) (fl_enums (out_flatd out)).
+Proof. exact run_ids_resolve. Qed.
 Print Assumptions C12_lists_sorted_nodup.
 Print Assumptions C12_lists_complete.
 Print Assumptions C12_id_form.
@@ -95,3 +103,4 @@ Print Assumptions C12_front_class_ids.
 Print Assumptions C12_json_lists_sorted.
 Print Assumptions C12_front_ids_resolve.
 Print Assumptions C12_json_ids_resolve.
+Print Assumptions C12_run_ids_resolve.
